@@ -172,7 +172,8 @@ class Mem2RegPromotor(FunctionPass):
 
             # Preserve debug info:
             for phi in phis:
-                self.debug_db.map(alloc, phi)
+                if self.debug_db:
+                    self.debug_db.map(alloc, phi)
 
             # Create undefined value at start:
             initial_value = ir.Undefined(f"und_{name}", phi_ty)
